@@ -17,6 +17,8 @@ type bufGlyph struct {
 	M uint32 `json:"m"`
 	P int32  `json:"p"`
 	G uint32 `json:"g"`
+	U uint16 `json:"u,omitempty"` // GlyphInfo.unicode
+	Q uint16 `json:"q,omitempty"` // GlyphInfo.glyphProps
 }
 type bufState struct {
 	Info   []bufGlyph `json:"info"`
@@ -40,6 +42,9 @@ type bufOp struct {
 	Cps     []int32 `json:"cps,omitempty"`
 	HasGids bool    `json:"has_gids,omitempty"`
 	Gids    []uint32 `json:"gids,omitempty"`
+	C       int     `json:"c,omitempty"`    // addrune: cluster; addrunes: itemLength
+	Text    []int32 `json:"text,omitempty"` // addrunes
+	Cap     int     `json:"cap,omitempty"`  // addrune(s): cap(Pos) observed afterwards
 }
 type bufInput struct {
 	Init bufState `json:"init"`
@@ -74,7 +79,7 @@ func toVerif(st bufState) hb.VerifState {
 	cv := func(gs []bufGlyph) []hb.VerifGlyph {
 		out := make([]hb.VerifGlyph, len(gs))
 		for i, g := range gs {
-			out[i] = hb.VerifGlyph{Cluster: g.C, Mask: g.M, Codepoint: rune(g.P), Glyph: hb.GID(g.G)}
+			out[i] = hb.VerifGlyph{Cluster: g.C, Mask: g.M, Codepoint: rune(g.P), Glyph: hb.GID(g.G), Unicode: g.U, GlyphProps: g.Q}
 		}
 		return out
 	}
@@ -86,7 +91,7 @@ func fromVerif(st hb.VerifState) bufState {
 	cv := func(gs []hb.VerifGlyph) []bufGlyph {
 		out := make([]bufGlyph, len(gs))
 		for i, g := range gs {
-			out[i] = bufGlyph{C: g.Cluster, M: g.Mask, P: int32(g.Codepoint), G: uint32(g.Glyph)}
+			out[i] = bufGlyph{C: g.Cluster, M: g.Mask, P: int32(g.Codepoint), G: uint32(g.Glyph), U: g.Unicode, Q: g.GlyphProps}
 		}
 		return out
 	}
@@ -97,7 +102,11 @@ func fromVerif(st hb.VerifState) bufState {
 func coqGlyphs(gs []bufGlyph) string {
 	e := make([]string, len(gs))
 	for i, g := range gs {
-		e[i] = vh.App("G", vh.Zi(g.C), vh.Zi(int(g.M&7)), vh.Zi(int(g.M>>3)), vh.Zi(int(g.P)), vh.Zi(int(g.G)))
+		if g.U == 0 && g.Q == 0 {
+			e[i] = vh.App("G", vh.Zi(g.C), vh.Zi(int(g.M&7)), vh.Zi(int(g.M>>3)), vh.Zi(int(g.P)), vh.Zi(int(g.G)))
+		} else {
+			e[i] = vh.App("GX", vh.Zi(g.C), vh.Zi(int(g.M&7)), vh.Zi(int(g.M>>3)), vh.Zi(int(g.P)), vh.Zi(int(g.G)), vh.Zi(int(g.U)), vh.Zi(int(g.Q)))
+		}
 	}
 	return vh.List(e)
 }
@@ -117,6 +126,13 @@ func coqOptList32(has bool, xs []int32) string {
 		e[i] = vh.Zi(int(x))
 	}
 	return vh.Some(vh.List(e))
+}
+func coqList32(xs []int32) string {
+	e := make([]string, len(xs))
+	for i, x := range xs {
+		e[i] = vh.Zi(int(x))
+	}
+	return vh.List(e)
 }
 func coqOptListU32(has bool, xs []uint32) string {
 	if !has {
@@ -184,6 +200,14 @@ func coqOp(o bufOp) string {
 		return vh.App("OUnsafeConcatOut", a, b)
 	case "propagate":
 		return "OPropagate"
+	case "addrune":
+		return vh.App("OAddRune", a, vh.Zi(o.C), vh.Zi(o.Cap))
+	case "addrunes":
+		return vh.App("OAddRunes", coqList32(o.Text), a, vh.Zi(o.C), vh.Zi(o.Cap))
+	case "sort":
+		return vh.App("OSort", a, b)
+	case "revgraphemes":
+		return vh.App("ORevGraphemes", vh.Bool(o.I))
 	}
 	panic("unknown op " + o.Name)
 }
@@ -268,6 +292,18 @@ func bufApply(b *hb.Buffer, o bufOp) (panicked any) {
 		b.VerifUnsafeToConcatFromOutbuffer(o.A, o.B)
 	case "propagate":
 		b.VerifPropagateFlags()
+	case "addrune":
+		b.AddRune(rune(o.A), o.C)
+	case "addrunes":
+		text := make([]rune, len(o.Text))
+		for i, c := range o.Text {
+			text[i] = rune(c)
+		}
+		b.AddRunes(text[:len(text):len(text)], o.A, o.C)
+	case "sort":
+		b.VerifSort(o.A, o.B)
+	case "revgraphemes":
+		b.VerifReverseGraphemes(o.I)
 	default:
 		panic("unknown op " + o.Name)
 	}
@@ -327,6 +363,36 @@ func bufPre(o bufOp, st bufState) bool {
 		return true
 	case "shiftfwd":
 		return st.Have && o.A >= 0
+	case "addrune":
+		return bufMonotone(append(bufSeqClusters(st), o.C))
+	case "addrunes":
+		n := o.C
+		if n < 0 {
+			n = len(o.Text) - o.A
+		}
+		if o.A < 0 || n < 0 || o.A+n > len(o.Text) {
+			return false
+		}
+		cl := bufSeqClusters(st)
+		for i := 0; i < n; i++ {
+			cl = append(cl, o.A+i)
+		}
+		return bufMonotone(cl)
+	case "sort":
+		return !st.Have && 0 <= o.A && o.B <= n
+	case "revgraphemes":
+		if st.Have {
+			return false
+		}
+		if o.I {
+			return true
+		}
+		for i := 1; i < n; i++ {
+			if st.Info[i].U&0x80 != 0 && st.Info[i].C != st.Info[i-1].C {
+				return false
+			}
+		}
+		return true
 	case "revrange":
 		if st.Have || o.A < 0 || o.A > o.B || o.B > n {
 			return false
@@ -344,7 +410,38 @@ func bufPre(o bufOp, st bufState) bool {
 	return false
 }
 
-var bufOpNames = []string{"next", "next", "nextn", "skip", "copy", "replidx", "replace", "replace", "replace", "delete", "delete", "delinplace",
+// the cluster values of out ++ unread input (Spec/Buffer.v bseq)
+func bufSeqClusters(st bufState) []int {
+	var cl []int
+	if st.Have {
+		for _, g := range st.Out {
+			cl = append(cl, g.C)
+		}
+		for i := st.Idx; i >= 0 && i < len(st.Info); i++ {
+			cl = append(cl, st.Info[i].C)
+		}
+		return cl
+	}
+	for _, g := range st.Info {
+		cl = append(cl, g.C)
+	}
+	return cl
+}
+
+func bufMonotone(cl []int) bool {
+	up, down := true, true
+	for i := 1; i < len(cl); i++ {
+		if cl[i-1] > cl[i] {
+			up = false
+		}
+		if cl[i-1] < cl[i] {
+			down = false
+		}
+	}
+	return up || down
+}
+
+var bufOpNames = []string{"addrune", "addrunes", "sort", "sort", "revgraphemes", "revgraphemes", "next", "next", "nextn", "skip", "copy", "replidx", "replace", "replace", "replace", "delete", "delete", "delinplace",
 	"merge", "merge", "merge", "mergeout", "mergeout", "moveto", "moveto", "swap", "clearout", "removeout", "clearpos", "reverse", "revclusters",
 	"setflags", "utb", "utb", "utc", "tatweel", "utbout", "utcout", "propagate", "shiftfwd", "revrange", "revrange"}
 var bufFlagOps = []string{"setflags", "utb", "utb", "utb", "utc", "utc", "tatweel", "utbout", "utcout", "propagate", "propagate", "merge", "next", "replace", "delete", "swap", "clearout", "reverse"}
@@ -405,6 +502,55 @@ func bufPropose(r *vh.Rand, st bufState, names []string) bufOp {
 		}
 	case "removeout":
 		o.I = r.Bool()
+	case "addrune":
+		o.A = rng(65, 90)
+		cl := bufSeqClusters(st)
+		o.C = rng(0, 9)
+		if len(cl) > 0 && r.Chance(85) { // continue the buffer in its direction
+			last := cl[len(cl)-1]
+			if cl[0] > last || (cl[0] == last && r.Bool()) {
+				o.C = last - rng(0, 2)
+			} else {
+				o.C = last + rng(0, 2)
+			}
+		}
+	case "addrunes":
+		tl := rng(0, 9)
+		o.Text = make([]int32, tl)
+		for i := range o.Text {
+			o.Text[i] = int32(rng(65, 90))
+		}
+		cl := bufSeqClusters(st)
+		o.A = rng(0, tl)
+		if len(cl) > 0 && r.Chance(80) {
+			o.A = imin(tl, imax(0, cl[len(cl)-1]+rng(0, 1)))
+		}
+		o.C = rng(0, tl-o.A)
+		if r.Chance(25) {
+			o.C = -1
+		}
+		if r.Chance(4) {
+			o.C = tl - o.A + 1 // past the text: slice panic
+		}
+	case "sort":
+		o.A = rng(0, n)
+		o.B = rng(o.A, n)
+		if r.Chance(50) { // a run of marks, as the normalizer does
+			i := r.Intn(n + 1)
+			for i < n && st.Info[i].U>>8 == 0 {
+				i++
+			}
+			j := i
+			for j < n && st.Info[j].U>>8 != 0 {
+				j++
+			}
+			o.A, o.B = i, j
+		}
+	case "revgraphemes":
+		o.I = st.Level == 1
+		if r.Chance(30) {
+			o.I = !o.I
+		}
 	case "shiftfwd":
 		o.A = rng(0, 3)
 	case "revrange":
@@ -451,7 +597,14 @@ func bufPropose(r *vh.Rand, st bufState, names []string) bufOp {
 // index-panic-only malformed operations (the model's Panic is exact for these whatever the capacities)
 func bufMalformed(r *vh.Rand, st bufState) bufOp {
 	n, ol := len(st.Info), len(st.Out)
-	switch r.Intn(6) {
+	switch r.Intn(8) {
+	case 6:
+		return bufOp{Name: "addrunes", Text: []int32{65, 66, 67}, A: r.Range(0, 4), C: r.Range(2, 4)}
+	case 7:
+		if !st.Have && n > 0 {
+			return bufOp{Name: "sort", A: r.Range(0, n-1), B: n + r.Range(1, 2)}
+		}
+		return bufOp{Name: "copy"}
 	case 0:
 		return bufOp{Name: "merge", A: r.Range(0, n), B: n + r.Range(1, 2)}
 	case 1:
@@ -504,6 +657,31 @@ func bufRandomInit(r *vh.Rand) bufState {
 		}
 		st.Info[i] = bufGlyph{C: cls[i], M: m, P: int32(r.Range(65, 90)), G: uint32(r.Range(0, 9))}
 	}
+	if r.Chance(60) { // unicode props: bases (Lo) and marks (Mn, continuation, a modified combining class)
+		grapheme := r.Chance(70) // continuation glyphs share the cluster of their base, as after formClusters
+		for i := range st.Info {
+			st.Info[i].U = 7
+			if i > 0 && r.Chance(45) {
+				ccc := []uint16{0, 1, 7, 9, 27, 220, 220, 230, 230, 230}[r.Intn(10)]
+				st.Info[i].U = ccc<<8 | 0x80 | 12
+				if grapheme && st.Level != 2 {
+					st.Info[i].C = st.Info[i-1].C
+				}
+			} else if i > 0 && r.Chance(10) {
+				st.Info[i].U = 0x80 | 0x20 | 1 // a format continuation (ZWJ-like): continuation without being a mark
+				if grapheme && st.Level != 2 {
+					st.Info[i].C = st.Info[i-1].C
+				}
+			}
+		}
+		if grapheme && st.Level != 2 { // restore monotonicity after the overwrite
+			for i := 1; i < n; i++ {
+				if dec && st.Info[i].C > st.Info[i-1].C || !dec && st.Info[i].C < st.Info[i-1].C {
+					st.Info[i].C = st.Info[i-1].C
+				}
+			}
+		}
+	}
 	if st.Level == 2 && r.Chance(50) && n > 1 { // Characters: clusters need not be monotone
 		i, j := r.Intn(n), r.Intn(n)
 		st.Info[i].C, st.Info[j].C = st.Info[j].C, st.Info[i].C
@@ -554,8 +732,8 @@ func bufGen(r *vh.Rand, tier string, n int, emit func(any), c18 bool) {
 		depth = 3
 	}
 	inits := []bufState{
-		{Info: []bufGlyph{{C: 0, M: 8, P: 65, G: 1}, {C: 1, M: 1, P: 66, G: 0}, {C: 1, M: 0, P: 67, G: 2}, {C: 3, M: 0, P: 68, G: 0}}, PosLen: 4, PosCap: 4, Have: true, HasGF: true},
-		{Info: []bufGlyph{{C: 4, M: 0, P: 65, G: 0}, {C: 2, M: 2, P: 66, G: 3}, {C: 2, M: 0, P: 67, G: 0}, {C: 0, M: 4, P: 68, G: 5}}, PosLen: 4, PosCap: 4, Have: true, Level: 1, Flags: uint16(hb.ProduceUnsafeToConcat), HasGF: true},
+		{Info: []bufGlyph{{C: 0, M: 8, P: 65, G: 1, U: 7}, {C: 1, M: 1, P: 66, G: 0, U: 7}, {C: 1, M: 0, P: 67, G: 2, U: 230<<8 | 0x8c}, {C: 3, M: 0, P: 68, G: 0, U: 220<<8 | 0x8c}}, PosLen: 4, PosCap: 4, Have: true, HasGF: true},
+		{Info: []bufGlyph{{C: 4, M: 0, P: 65, G: 0, U: 7}, {C: 2, M: 2, P: 66, G: 3, U: 230<<8 | 0x8c}, {C: 2, M: 0, P: 67, G: 0, U: 220<<8 | 0x8c}, {C: 0, M: 4, P: 68, G: 5, U: 7}}, PosLen: 4, PosCap: 4, Have: true, Level: 1, Flags: uint16(hb.ProduceUnsafeToConcat), HasGF: true},
 	}
 	// the same two buffers in the middle of a pass: two glyphs already in the out-buffer, the cursor inside a cluster
 	for _, init := range inits[:2] {
@@ -574,6 +752,9 @@ func bufGen(r *vh.Rand, tier string, n int, emit func(any), c18 bool) {
 		{Name: "utb", A: 0, B: 3}, {Name: "utb", A: 1, B: 4}, {Name: "utbout", A: 0, B: 3}, {Name: "utcout", A: 1, B: 2},
 		{Name: "utc", A: 0, B: 4}, {Name: "propagate"}, {Name: "clearout"}, {Name: "delinplace", A: 1}, {Name: "reverse"}, {Name: "revclusters"},
 		{Name: "shiftfwd", A: 2}, {Name: "revrange", A: 1, B: 3}, {Name: "revrange", A: 0, B: 4}, {Name: "removeout", I: true},
+		{Name: "sort", A: 0, B: 4}, {Name: "sort", A: 1, B: 4}, {Name: "revgraphemes", I: true}, {Name: "revgraphemes", I: false},
+		{Name: "addrune", A: 69, C: 3}, {Name: "addrune", A: 69, C: 0}, {Name: "addrunes", Text: []int32{65, 66, 67, 68, 69, 70}, A: 3, C: 2},
+		{Name: "addrunes", Text: []int32{65, 66, 67, 68, 69, 70}, A: 4, C: -1},
 	}
 	if c18 {
 		alphabet = []bufOp{
@@ -644,6 +825,9 @@ func bufRun(o *vh.Out, inAny any) {
 	var firstPanic any
 	for _, op := range in.Ops {
 		p := bufApply(b, op)
+		if op.Name == "addrune" || op.Name == "addrunes" {
+			op.Cap = b.VerifState().PosCap // the capacity the runtime chose is an input of the model
+		}
 		classes = append(classes, "op:"+op.Name)
 		if p != nil {
 			steps = append(steps, vh.Tuple(coqOp(op), "OPanic"))
